@@ -69,7 +69,12 @@ func Analyze(ctx context.Context, scope *ReferenceScope, view *View, fn parser.A
 		}
 
 		if _, ok := fn.Args[0].(parser.AllColumns); ok {
-			fn.Args[0] = parser.NewIntegerValue(1)
+			// fn is a copy, but fn.Args shares its backing array with the syntax tree:
+			// replace the argument in a private slice.
+			args := make([]parser.QueryExpression, len(fn.Args))
+			copy(args, fn.Args)
+			args[0] = parser.NewIntegerValue(1)
+			fn.Args = args
 		}
 	} else {
 		if err := udfn.CheckArgsLen(fn, fn.Name, len(fn.Args)-1); err != nil {
